@@ -57,6 +57,11 @@ class PathEnd(PathAbort):
     """the harness ends the path early (after an exception in the code under test)"""
 
 
+class TapeEnd(PathAbort):
+    """concrete replay of a counterexample ran past the recorded inputs (normal: the symbolic
+    path was cut at the failing assertion)"""
+
+
 class ReplayMismatch(Exception):
     """the concrete run asked for inputs in a different order than the symbolic one"""
 
@@ -87,6 +92,7 @@ class BaseCtx:
         self.counters = {}
         self.obs = []
         self.rng_log = []
+        self.own_exceptions = False  # only C01 treats exceptions of the code under test as failures
 
     def observe(self, key, v):
         """record an output of the code under test; symbolic and concrete runs must agree"""
@@ -113,7 +119,10 @@ class BaseCtx:
         except ReplayMismatch:
             raise
         except Exception as ex:  # noqa — BaseException (engine control flow) passes through
-            self._exception(label, ex)
+            if self.own_exceptions:
+                self._exception(label, ex)
+            else:
+                self.count("path_ended_by_exception_in_code_under_test(owned_by_C01):%s:%s" % (label, type(ex).__name__))
             raise PathEnd()
 
     def is_finite_number(self, x):
@@ -130,13 +139,15 @@ class BaseCtx:
 class SymCtx(BaseCtx):
     symbolic = True
 
-    def __init__(self, E, budget=None):
+    def __init__(self, E, budget=None, known_labels=None):
         super().__init__()
         self.E = E
+        self.known_labels = known_labels if known_labels is not None else set()
         self.candidates = []  # Violation objects (to be replayed by the driver)
         self.unknown_checks = []
         self.budget = budget or {}
         self._seen_labels = set()
+        self.repeats = []
 
     # ---- inputs
     def real(self, name, lo=None, hi=None):
@@ -210,7 +221,7 @@ class SymCtx(BaseCtx):
         tries = []
         dy = []
         try:
-            strong = [strengthen(c) for c in E.pc]
+            strong = self._consistent_strengthening()
         except z3.Z3Exception:
             strong = None
         for name, kind, term, label in E.inputs:
@@ -253,6 +264,44 @@ class SymCtx(BaseCtx):
         s.set("timeout", old)
         return None
 
+    def _consistent_strengthening(self):
+        """margin versions of the path-condition atoms, minus those that cannot hold with a margin
+        (inherent ties such as max(a*a, (-a)*(-a))), found through unsat cores"""
+        E = self.E
+        s = E.solver
+        strong = [(i, strengthen(c)) for i, c in enumerate(E.pc)]
+        strong = [(i, c) for i, c in strong if not c.eq(E.pc[i])]
+        # one representative per distinct atom
+        seen = {}
+        for i, c in strong:
+            seen.setdefault(c.sexpr(), (i, c))
+        strong = list(seen.values())
+        s.set("timeout", min(E.timeout_ms, 3000))
+        for _ in range(40):
+            if not strong:
+                break
+            inds = {z3.Bool("st!%d" % i): c for i, c in strong}
+            s.push()
+            try:
+                for b, c in inds.items():
+                    s.add(z3.Implies(b, c))
+                E.n_queries += 1
+                r = s.check(*inds.keys())
+                if r == z3.sat:
+                    break
+                if r == z3.unknown:
+                    strong = []
+                    break
+                core = set(str(x) for x in s.unsat_core())
+            finally:
+                s.pop()
+            if not core:
+                strong = []
+                break
+            strong = [(i, c) for i, c in strong if "st!%d" % i not in core]
+        s.set("timeout", E.timeout_ms)
+        return [c for i, c in strong]
+
     def _record(self, label, detail, model, exc=None):
         key = (label, exc)
         self.count("fail:" + label)
@@ -264,15 +313,25 @@ class SymCtx(BaseCtx):
     def _exception(self, label, ex):
         lab = "exception:" + label
         exc = type(ex).__name__
+        if (lab, exc) in self.known_labels:
+            self.repeat_fail(lab, exc)
+            return
         m = self._nice_model()
         if m is None:
             self.unknown_checks.append(lab)
             return
         self._record(lab, "%s: %s" % (exc, str(ex)[:300]), m, exc)
 
+    def repeat_fail(self, label, exc=None):
+        self.count("fail:" + label)
+        self.repeats.append((label, exc))
+
     def fail(self, label, detail=None):
         """unconditional failure on this path (structural assertion evaluated by the harness)"""
         self.n_checks += 1
+        if (label, None) in self.known_labels or (label, None) in self._seen_labels:
+            self.repeat_fail(label)
+            return False
         m = self._nice_model()
         if m is None:
             self.unknown_checks.append(label)
@@ -297,6 +356,9 @@ class SymCtx(BaseCtx):
         if st == "unknown":
             self.unknown_checks.append(label)
             return None
+        if (label, None) in self.known_labels or (label, None) in self._seen_labels:
+            self.repeat_fail(label)
+            return False
         m2 = self._nice_model(neg=z3.Not(cond), margin_terms=margin)
         self._record(label, detail, m2 or m)
         return False
@@ -364,14 +426,17 @@ class ConcCtx(BaseCtx):
 
     symbolic = False
 
-    def __init__(self, inputs):
+    def __init__(self, inputs, complete=False):
         super().__init__()
         self.tape = list(inputs)
         self.pos = 0
+        self.complete = complete  # True: the tape belongs to a finished path
 
     def _next(self, kind):
         if self.pos >= len(self.tape):
-            raise ReplayMismatch("tape exhausted (wanted %s)" % kind)
+            if self.complete:
+                raise ReplayMismatch("tape exhausted (wanted %s)" % kind)
+            raise TapeEnd()
         name, k, v = self.tape[self.pos]
         if k != kind:
             raise ReplayMismatch("tape has %s %s, code wanted %s" % (k, name, kind))
